@@ -6,11 +6,18 @@ P: LoadTracer.dec_a (the Python DEC A accelerator): the miss branch equals the
    by the ISA contracts proved for the closures - by induction on the iteration
    count (base / step for a symbolic k / final, each discharged by z3), then the
    real code against the closed form.
+P: every entry of loadsample.ACCELERATORS (props/progexec.py): the signature's own
+   bytes are executed symbolically over the ISA contracts; under the condition
+   _read_port tests, one real trip round the loop equals one fast-forwarded
+   iteration (loop_time, loop_r_inc, counter, flags, frame; exits infeasible), up
+   to components proved dead at the IN instruction.
+P: the fast-forward statement of LoadTracer._read_port (mechanical slice of the
+   real function) equals `loops` such iterations, never skips an IN after the
+   next edge and never the iteration that ends the count.
 B: final-snapshot equality of tap2sna.main across accelerator / accelerate-dec-a
    / pause / python settings, and loaded-bytes/PC/SP equality across fast-load
-   and cmio, on tapes made by bin2tap. The accelerator table (loop shapes) and the
-   interplay of a fast-forward with the tape-edge bookkeeping are not under VC
-   (program-level executor not built): covered only by this bounded part.
+   and cmio, on tapes made by bin2tap. Signature matching, the edge bookkeeping of
+   LoadTracer.run and the C re-implementation are covered only by this part.
 """
 import contextlib
 import io
@@ -284,11 +291,15 @@ def run(tier):
     rep = common.Report('C13', tier, 'other', './check C13 --tier %s' % tier)
     rep.trust('pyvc, z3, contracts/z80spec (the ISA contracts proved for the closures under C05); CPython + tap2sna itself for the bounded part')
     rep.assume('dec_a hit branches require IFF == 0 (checked by the code): no interrupt can be accepted between the iterations they replace')
-    rep.assume('accelerator table (loadsample.ACCELERATORS), _read_port fast-forward, LoadTracer.run edge bookkeeping and the C re-implementation CSimulator_load are not under VC: bounded option differential only')
+    rep.assume('accelerator matching (signature comparison, move-to-front), LoadTracer.run edge bookkeeping and the C re-implementation CSimulator_load are not under VC: bounded option differential only')
+    rep.assume('composition of the per-iteration accelerator obligations into `loops` iterations is the induction argument of props/progexec.py (pred preserves cond and inv; D-equivalence is a bisimulation by O3); the induction itself is on paper, its premises are the discharged obligations')
     from props import tablecheck
     for mod, name, b in tablecheck.check_tables(rep, names=('DEC', 'DEC0', 'INC0', 'R1')):
         rep.violation('C13/table/%s.%s' % (mod, name), 'table %s.%s entry %s: real %s, flag rules give %s' % (mod, name, b[1], b[2], b[3]), {'table': name, 'index': b[1]})
     check_dec_a(rep)
+    from props import progexec
+    progexec.check_accelerators(rep)        # every ACCELERATORS entry: one real trip round the loop == one fast-forwarded iteration
+    progexec.check_ffwd_arith(rep)          # the real fast-forward statement of _read_port == `loops` such iterations, never past the edge
     quick = tier == 'quick'
     n = 16 if quick else 300
     with Pool(common.NCPU) as p:
@@ -303,7 +314,9 @@ def run(tier):
             continue
         seen.add(key)
         rep.violation(key, 'tap2sna %s: %s' % (b[1], b[2]), {'case': {'desc': b[1]}, 'observed': b[2]})
-    rep.extra['explanation'] = 'P: dec_a accelerator against the ISA contracts by induction; B: option differential of whole loads'
+    rep.extra['explanation'] = ('P: dec_a accelerator against the ISA contracts by induction; every tape-sampling accelerator table entry against the ISA contracts '
+                                '(program-level symbolic execution of its signature bytes); the fast-forward arithmetic of _read_port against its closed form. '
+                                'B: option differential of whole loads')
     return rep.finish()
 
 
@@ -313,6 +326,19 @@ def replay(path):
         doc = json.load(f)
     print('replaying', doc.get('key'), doc.get('case'))
     case = doc.get('case') or {}
+    if 'accelerator_fields' in case:
+        from props import progexec
+        d = progexec.concrete_ffwd(case['regs'], case['next_edge_t'], case['edge_index'], tuple(case['accelerator_fields']))
+        print('real _read_port closure vs closed form:', d)
+        if d:
+            print('VIOLATION property=C13 replay=%s' % path)
+            return 1
+        print('does not reproduce on this tree')
+        return 0
+    if doc.get('no_failing_input_found'):
+        print(doc.get('what'))
+        print('VIOLATION property=C13 replay=%s no-failing-input-found' % path)
+        return 1
     if 'regs' in case:
         for which in ('jr', 'jp'):
             d = concrete_dec_a(case['regs'], which=which)
